@@ -2,6 +2,16 @@
 import re
 
 PROPS = {
+    "C01": {
+        "modules": ["Ark.Props.C01a", "Ark.Props.C01e"],
+        "rule": "one op line per field operation on a configuration of the zoo (N=1..13 limbs, with/without spare bit, "
+                "derived and trait-default arithmetic, shipped test-curve fields); operands are raw Montgomery residues; "
+                "distinct = distinct op line; non-trivial = some operand outside {0,1}",
+        "exhaustive": ["all ordered pairs of F_3, F_5, F_7, F_13 (quick) and additionally F_127, F_251, F_257 (thorough) for add/sub/mul, all elements for unary ops"],
+        "partial": [],
+        "assumptions": ["primality of the zoo/shipped moduli (sympy isprime at zoo generation; enters theorems as a hypothesis)",
+                        "decimal FromStr/Display go through num-bigint (trusted)"],
+    },
     "C15": {
         "modules": ["Ark.Props.C15", "Ark.Props.C15a", "Ark.Props.C15b"],
         "rule": "one op line per BigInt<N> operation (N=1..13); distinct = distinct canonical op line; "
@@ -25,3 +35,6 @@ def locate_proof_failure(out):
         return f"{m[0][0]}:{m[0][1]}"
     m = re.findall(r"✖ \[\d+/\d+\] Building (\S+)", out)
     return m[0] if m else "lake build"
+
+NOT_APPLICABLE = {}
+HOOK_COMMITS = []
